@@ -182,7 +182,7 @@ def table_items(m):
     callers (they filter on the value)"""
     keys = C.fresh("table_keys", sym.SetSort(Id))
     C.assume(z3.ForAll([x], z3.Implies(m.val[x] != m.default, keys[x])))
-    return SIter(Id, lambda q: keys[q], lambda q: (SId(q), sym.wrap(m.val[q])), distinct=True)
+    return SIter(Id, lambda q: keys[q], lambda q: (SId(q), m.wrapv(m.val[q])), distinct=True)
 
 
 def _default_items(self):
@@ -533,4 +533,38 @@ class RemoveAnyRootNode:
         rt = term(r)
         C.check(g.is_root(rt, N0), f"{n}.post.C20.the_removed_node_had_no_predecessor_in_the_graph", {"C20", "C02"}, "post")
         C.check(z3.And(g.N == z3.Store(N0, rt, False), g.cN == c0 - 1), f"{n}.post.C20.exactly_that_node_is_removed", {"C20", "C09"}, "post")
+        return "return"
+
+
+# ---- get_tagged_nodes ---------------------------------------------------------------------------------------------------
+tag_member = z3.Function("tag_is_in_tag_list", sym.Val, sym.Val, B)  # `tag in tags` for a tag-list value of the table
+
+
+class STagList(sym.SVal):
+    """an entry of graph.tag: None or a list of tags"""
+
+    def _vc_contains(self, tag):
+        return SBool(tag_member(self.t, term(tag, sym.Val)))
+
+
+class GetTaggedNodes:
+    """DiGraphEx.get_tagged_nodes(tag): exactly the nodes whose entry in the tag table is a list containing the tag
+    (an entry None = no tag); this is what alias_to_ids resolves a tag with (C12)"""
+
+    module = "tawazi._dag.digraph"
+    qualname = "DiGraphEx.get_tagged_nodes"
+    loops = {}
+
+    def namespace(self):
+        return common_ns()
+
+    def run(self, f, case):
+        g = new_graph()
+        snap = snapshot(g)
+        g.tag.wrapv = lambda t_: STagList(t_)
+        tag = sym.SVal(C.fresh("tag", sym.Val))
+        r = mem_of(f(g, tag))
+        tv = g.tag.val
+        C.check(z3.ForAll([x], r.mem(x) == z3.And(tv[x] != sym.none, tag_member(tv[x], tag.t))), "get_tagged_nodes.post.C12.exactly_the_nodes_whose_tag_list_contains_the_tag", {"C12", "C19"}, "post")
+        C.check(unchanged(g, snap), "get_tagged_nodes.frame.C15.graph_untouched", {"C15"}, "frame")
         return "return"
